@@ -258,10 +258,36 @@ pub fn external_components(
             }
         }
     }
+    // since /repo <COMMIT-F17> (finding F17) theory_translate appends the empty completed definition of every
+    // output predicate that does not occur in the completed theory, before the simplification:
+    // the simplification table covers them (for every declared output predicate; built here, not
+    // taken from the code, so that the harness compiles against trees without the repair - the
+    // comparison of decompose() with the model is what ties the formula to the code)
+    let empty: Vec<fol::Formula> = ug.output_predicates().iter().map(empty_definition).collect();
+    simplify_theory(&fol::Theory { formulas: empty }, &portfolio_classic(), &mut s2)?;
     Some(tagged(
         "components",
         vec![tagged("is_tight", tight), tagged("has_private_recursion", privrec), ts.to_sexp(), comp.to_sexp(), s2.to_sexp()],
     ))
+}
+
+/// `forall V1..Vn (p(V1,..,Vn) <-> #false)` (propositional: `p <-> #false`): the completed
+/// definition of a predicate without rules, with the head variables completion.rs chooses
+pub fn empty_definition(p: &fol::Predicate) -> fol::Formula {
+    let names: Vec<String> = (1..=p.arity).map(|i| format!("V{i}")).collect();
+    fol::Formula::BinaryFormula {
+        connective: fol::BinaryConnective::Equivalence,
+        lhs: fol::Formula::AtomicFormula(fol::AtomicFormula::Atom(fol::Atom {
+            predicate_symbol: p.symbol.clone(),
+            terms: names.iter().cloned().map(fol::GeneralTerm::Variable).collect(),
+        }))
+        .into(),
+        rhs: fol::Formula::AtomicFormula(fol::AtomicFormula::Falsity).into(),
+    }
+    .quantify(
+        fol::Quantifier::Forall,
+        names.into_iter().map(|name| fol::Variable { name, sort: fol::Sort::General }).collect(),
+    )
 }
 
 // ------------------------------------------------------------------ generators
